@@ -203,7 +203,8 @@ def explore_item(item: dict, max_executions: int | None = None) -> Iterator[tupl
         yield run, (states[-1] if states else None), stats
         return
     for run in sched.explore(body, preemptions=item["p"], env=item.get("e", 0), allow_interrupt=item.get("ctrl_c", True),
-                             max_executions=max_executions, stats=stats):
+                             max_executions=max_executions, stats=stats, total=item.get("total"),
+                             shard=tuple(item["shard"]) if item.get("shard") else None):
         yield run, (states[-1] if states else None), stats
 
 
@@ -226,3 +227,10 @@ def events_brief(events: list) -> list[str]:
 def schedule_brief(run: sched.ScheduleRun) -> list[str]:
     """Only the non-default decisions: (point index, thread, description, chosen label)."""
     return [f"{i}:T{p.thread}:{p.desc}->{p.labels[p.chosen]}" for i, p in enumerate(run.trace) if p.chosen]
+
+
+def sharded(item: dict, n: int) -> list[dict]:
+    """Split the exploration of one item into n work items (see sched.explore(shard=...))."""
+    if n <= 1:
+        return [item]
+    return [{**item, "shard": [k, n]} for k in range(n)]
